@@ -5,6 +5,7 @@
    between model and implementation. *)
 From Robsd Require Import Base.Bytes Arena.ArenaDefs Arena.ArenaSpec Arena.ArenaProofs Arena.ArenaInv Arena.ArenaThms
   Arena.ArenaHoles.
+From RobsdGen Require Import Gen_Arena.
 Local Open Scope N_scope.
 
 Section Oracle.
@@ -57,8 +58,10 @@ Qed.
 
 Lemma fill_missesb_spec o b : fill_missesb o b = true -> fill_misses o b.
 Proof.
-  destruct o; simpl; try (intros; exact I).
-  rewrite !orb_true_iff, negb_true_iff, Nat.eqb_neq, !N.eqb_eq, !N.leb_le. tauto.
+  destruct o as [|k|k size|k nmemb size|k [p|] old new|k data|k data|k data|k tok|p n v|p|]; simpl;
+    try (intros; exact I).
+  - rewrite orb_true_iff, negb_true_iff, N.eqb_eq. tauto.
+  - rewrite !orb_true_iff, negb_true_iff, Nat.eqb_neq, !N.eqb_eq, !N.leb_le. tauto.
 Qed.
 
 (* o_intact: every block live before the step that the client did not write keeps its bytes *)
@@ -111,7 +114,8 @@ Proof.
     destruct (scope_leave c (st_ncl st) (st_a st) s) as [[[a' tk] rs]| | |] eqn:El; try discriminate.
     inversion Hstep; subst; clear Hstep.
     destruct (leave_spec c Hwf _ _ _ _ _ R Hapi Hstep0) as (-> & -> & _). simpl.
-    unfold list_eqb. rewrite beq_refl. reflexivity.
+    assert (Hnth : nth 0 (g_scopes g) [] = hd [] (g_scopes g)) by (destruct (g_scopes g); reflexivity).
+    rewrite Hnth. unfold list_eqb. rewrite beq_refl. reflexivity.
   - unfold with_scope, lift_alloc in Hstep. destruct (nth_error (st_scs st) k) as [s|]; [|discriminate].
     destruct (malloc c (st_a st) s size) as [[q a1]| | |]; try discriminate.
     inversion Hstep; subst; clear Hstep. simpl in R'. simpl. apply (new_block_checks _ _ _ _ _ _ _ _ R').
@@ -169,61 +173,185 @@ Lemma outside_code_cases g o :
   outside_code g o = R_OUTSIDE_API \/ (outside_code g o = R_OUTER_SHRINK /\ outer_shrink g o = true).
 Proof. unfold outside_code. destruct (outer_shrink g o); auto. Qed.
 
+(* only a LeaveAt written in the program becomes a LeaveAt *)
+Lemma hop_leave tbl h k : hop_to_op tbl h = Some (LeaveAt k) -> h = HOp (LeaveAt k).
+Proof.
+  destruct h as [o|k0 [h0|] mis old new|h0 off n v|h0 off]; simpl.
+  - intros H; inversion H; reflexivity.
+  - destruct (resolve tbl h0); discriminate.
+  - discriminate.
+  - destruct (resolve tbl h0); discriminate.
+  - destruct (resolve tbl h0); discriminate.
+Qed.
+
+Lemma nonlifo_leave_spec g o k : nonlifo_leave g o = Some k -> o = LeaveAt k /\ exists k', k = S k'.
+Proof.
+  destruct o as [|k0|k0 size|k0 nmemb size|k0 p0 old new|k0 data|k0 data|k0 data|k0 tok|p n v|p|]; simpl; try discriminate.
+  destruct k0 as [|k']; simpl; [discriminate|].
+  destruct (S k' <? depth g)%nat; [|discriminate]. intros H; inversion H; subst. split; [reflexivity|eauto].
+Qed.
+
+(* a realloc that answers NULL has changed nothing *)
+Lemma realloc_null_same st k p0 old new st' :
+  step c st (Realloc k p0 old new) = Ok (st', EPtr None) -> st' = st.
+Proof.
+  unfold step. destruct (a_refs (st_a st) =? 0); [discriminate|].
+  unfold with_scope. destruct (nth_error (st_scs st) k) as [s|]; [|discriminate].
+  destruct (realloc c (st_a st) s p0 old new) as [[q a']| | |] eqn:Er; try discriminate.
+  intros H; inversion H; subst; clear H.
+  unfold realloc in Er. destruct p0 as [p|].
+  - destruct (negb (N.land (snd p) (c_ma c - 1) =? 0)).
+    + inversion Er; subst. apply state_eta.
+    + destruct (realloc_fast c (st_a st) s p old new) as [[[|] a1]| | |]; try discriminate.
+      destruct (malloc c (st_a st) s new) as [[q1 a2]| | |]; discriminate.
+  - destruct (malloc c (st_a st) s new) as [[q1 a2]| | |]; discriminate.
+Qed.
+
+Lemma refused_spec o ob : refused o ob = true -> exists k p0 old new, o = Realloc k p0 old new /\ o_ev ob = EPtr None.
+Proof.
+  unfold refused. destruct o as [|k|k size|k nmemb size|k p0 old new|k data|k data|k data|k tok|p n v|p|];
+    try (destruct (o_ev ob) as [|[q|]|toks reset|x]; discriminate).
+  destruct (o_ev ob) as [|[q|]|toks reset|x]; try discriminate. intros _. eauto 6.
+Qed.
+
+(* For EVERY program: the oracle's verdict on the model's own trace is one of the above - unless the
+   program leaves a scope that is not the innermost one ([has_nonlifo], a predicate on the program):
+   then the oracle may object to the model itself, and rightly so (nonlifo_verdicts below). *)
 Theorem model_trace_accepted ops : forall st g tbl i,
   reach c st g ->
-  let '(tr, last, e) := mtrace c st g tbl ops in acceptable (spec_walk c g tbl i tr last e).
+  let '(tr, last, e) := mtrace c st g tbl ops in
+  acceptable (spec_walk c false g tbl i tr last e) \/ has_nonlifo ops = true.
 Proof.
   induction ops as [|h rest IH]; intros st g tbl i R.
-  - simpl. exact I.
-  - simpl. destruct (hop_to_op tbl h) as [o|] eqn:Eh.
-    2:{ simpl. rewrite Eh. simpl. right. left. reflexivity. }
+  - simpl. left. exact I.
+  - cbn [mtrace]. destruct (hop_to_op tbl h) as [o|] eqn:Eh.
+    2:{ cbn [spec_walk]. rewrite Eh. left. simpl. right. left. reflexivity. }
+    destruct (nonlifo_leave g o) as [k|] eqn:Enl.
+    { (* a leave of a scope that is not the innermost one: the program is outside the guard *)
+      destruct (nonlifo_leave_spec _ _ _ Enl) as [-> [k' ->]]. apply hop_leave in Eh. subst h.
+      destruct (step c st (LeaveAt (S k'))) as [[st' ev]| | |]; [destruct (mtrace c st' _ _ rest) as [[tr last] e]|..];
+        right; reflexivity. }
     destruct (api_okb g o) eqn:Eapi.
-    2:{ (* outside the API: whatever the model does, the oracle stops judging here *)
+    2:{ (* outside the API *)
         destruct (step c st o) as [[st' ev]| | |] eqn:Es.
-        - destruct (mtrace c st' _ _ rest) as [[tr last] e]. simpl. rewrite Eh, Eapi. simpl.
-          destruct (outside_code_cases g o) as [->|[-> Hos]]; [left; reflexivity|].
-          right. right. split; [reflexivity|].
-          destruct (c_sv c) eqn:Esv; [|reflexivity].
-          rewrite (outer_shrink_traps_validated c Hwf _ _ _ Esv R Hos) in Es. discriminate.
-        - simpl. rewrite Eh. unfold check_ending. rewrite Eapi. simpl. exact I.
-        - simpl. rewrite Eh. unfold check_ending. rewrite Eapi. simpl. exact I.
-        - simpl. rewrite Eh. unfold check_ending. rewrite Eapi. simpl. exact I. }
+        - destruct (refused o (obs_of g o st st' ev)) eqn:Eref.
+          + (* the arena refused: nothing changed, the walk goes on *)
+            destruct (refused_spec _ _ Eref) as (k & p0 & old & new & -> & Eev). simpl in Eev. subst ev.
+            pose proof (realloc_null_same _ _ _ _ _ _ Es) as ->.
+            specialize (IH st g (tbl ++ [None]) (S i) R). cbn [returns_ptr].
+            change (gstep c g (Realloc k p0 old new) (EPtr None)) with g.
+            destruct (mtrace c st g (tbl ++ [None]) rest) as [[tr last] e].
+            cbn [spec_walk]. rewrite Eh, Enl, Eapi. cbn [negb returns_ptr obs_of o_ev]. rewrite Eref.
+            destruct IH as [IH|IH]; [left; exact IH|right]. simpl. rewrite IH. apply orb_true_r.
+          + destruct (mtrace c st' _ _ rest) as [[tr last] e]. cbn [spec_walk]. rewrite Eh, Enl, Eapi. cbn [negb].
+            rewrite Eref. left. simpl.
+            destruct (outside_code_cases g o) as [->|[-> Hos]]; [left; reflexivity|].
+            right. right. split; [reflexivity|].
+            destruct (c_sv c) eqn:Esv; [|reflexivity].
+            rewrite (outer_shrink_traps_validated c Hwf _ _ _ Esv R Hos) in Es. discriminate.
+        - left. cbn [spec_walk]. rewrite Eh. unfold check_ending. rewrite Enl, Eapi. simpl. exact I.
+        - left. cbn [spec_walk]. rewrite Eh. unfold check_ending. rewrite Enl, Eapi. simpl. exact I.
+        - left. cbn [spec_walk]. rewrite Eh. unfold check_ending. rewrite Enl, Eapi. simpl. exact I. }
     destruct (must_trap c o) eqn:Emt.
-    + rewrite (outer_use_traps c Hwf _ _ _ R Eapi Emt). simpl. rewrite Eh.
-      unfold check_ending. rewrite Eapi, Emt. simpl. exact I.
+    + rewrite (outer_use_traps c Hwf _ _ _ R Eapi Emt). left. cbn [spec_walk]. rewrite Eh.
+      unfold check_ending. rewrite Enl, Eapi, Emt. simpl. exact I.
     + destruct (inner_use_ok c Hwf _ _ _ R Eapi Emt) as [(st' & ev & Es)|[Es Hme]]; rewrite Es.
       * assert (R' : reach c st' (gstep c g o ev)) by (eapply reach_step; eassumption).
         specialize (IH st' (gstep c g o ev)
                       (if returns_ptr o then tbl ++ [match ev with EPtr p => p | _ => None end] else tbl)
                       (S i) R').
-        destruct (mtrace c st' _ _ rest) as [[tr last] e]. simpl. rewrite Eh, Eapi, Emt. simpl.
-        rewrite (check_obs_model _ _ _ _ _ R Eapi Es). simpl. exact IH.
-      * simpl. rewrite Eh. unfold check_ending. rewrite Eapi, Emt, Hme. simpl. exact I.
+        destruct (mtrace c st' _ _ rest) as [[tr last] e]. cbn [spec_walk]. rewrite Eh, Enl, Eapi, Emt. cbn [negb].
+        rewrite (check_obs_model _ _ _ _ _ R Eapi Es). cbn [N.eqb negb obs_of o_ev].
+        destruct IH as [IH|IH]; [left; exact IH|right]. simpl. rewrite IH. apply orb_true_r.
+      * left. cbn [spec_walk]. rewrite Eh. unfold check_ending. rewrite Enl, Eapi, Emt, Hme. simpl. exact I.
 Qed.
 
-(* from arena_alloc, with the empty handle table: spec_ok holds of the model's trace
-   unless a handle of the program does not resolve *)
+(* from arena_alloc, with the empty handle table *)
 Corollary model_passes_oracle st ops :
   init c = Some st ->
-  let '(tr, last, e) := mtrace c st ghost0 [] ops in acceptable (spec_check c tr last e).
+  let '(tr, last, e) := mtrace c st ghost0 [] ops in
+  acceptable (spec_check c tr last e) \/ has_nonlifo ops = true.
 Proof.
   intros Hi. unfold spec_check. apply (model_trace_accepted ops st ghost0 [] O).
   constructor. assumption.
 Qed.
 
-(* with the source as it is now (c_sv): no verdict but "outside the API" / "unknown handle" *)
+(* with the source as it is now (c_sv) and a program that leaves scopes innermost first: no
+   verdict but "outside the API" / "unknown handle" *)
 Corollary model_passes_oracle_validated st ops :
-  c_sv c = true -> init c = Some st ->
+  c_sv c = true -> init c = Some st -> has_nonlifo ops = false ->
   let '(tr, last, e) := mtrace c st ghost0 [] ops in
   match spec_check c tr last e with
   | None => True
   | Some (_, code) => code = R_OUTSIDE_API \/ code = R_BAD_HANDLE
   end.
 Proof.
-  intros Hsv Hi. pose proof (model_passes_oracle st ops Hi) as H.
+  intros Hsv Hi Hnl. pose proof (model_passes_oracle st ops Hi) as H.
   destruct (mtrace c st ghost0 [] ops) as [[tr last] e].
+  destruct H as [H|H]; [|congruence].
   destruct (spec_check c tr last e) as [[i code]|]; [|exact I].
   simpl in H. destruct H as [H|[H|[_ H]]]; auto. congruence.
+Qed.
+
+(* ---- where the model stops being claimed ([cut_exposed]): never inside the API ------------------ *)
+Lemma returned_is_live st g o st' p :
+  reach c st g -> api_okb g o = true -> step c st o = Ok (st', EPtr (Some p)) ->
+  exists b, In b (g_blocks (gstep c g o (EPtr (Some p)))) /\ b_loc b = p.
+Proof.
+  intros R Hapi Hstep. unfold step in Hstep. destruct (a_refs (st_a st) =? 0); [discriminate|].
+  destruct o; simpl; unfold with_scope, lift_alloc in Hstep;
+    try (eexists; split; [left; reflexivity|reflexivity]).
+  - destruct (scope_enter (st_a st)) as [[? ?]| | |]; discriminate.
+  - destruct (nth_error (st_scs st) k); [|discriminate].
+    destruct (scope_leave c (st_ncl st) (st_a st) s) as [[[? ?] ?]| | |]; discriminate.
+  - discriminate.
+  - discriminate.
+  - destruct (arena_free c (st_a st)); discriminate.
+Qed.
+
+Lemma leave_event_op st o st' toks reset : step c st o = Ok (st', ELeave toks reset) -> exists k, o = LeaveAt k.
+Proof.
+  unfold step. destruct (a_refs (st_a st) =? 0); [discriminate|].
+  destruct o as [|k|k size|k nmemb size|k p0 old new|k data|k data|k data|k tok|p n v|p|];
+    unfold with_scope, lift_alloc; try (intros H; discriminate); try (intros _; eauto; fail).
+  - destruct (scope_enter (st_a st)) as [[? ?]| | |]; discriminate.
+  - destruct (nth_error (st_scs st) k); [|discriminate]. destruct (malloc c (st_a st) s size) as [[? ?]| | |]; discriminate.
+  - destruct (nth_error (st_scs st) k); [|discriminate]. destruct (calloc c (st_a st) s nmemb size) as [[? ?]| | |]; discriminate.
+  - destruct (nth_error (st_scs st) k); [|discriminate].
+    destruct (realloc c (st_a st) s p0 old new) as [[? ?]| | |]; discriminate.
+  - destruct (nth_error (st_scs st) k); [|discriminate]. destruct (alloc_str c (st_a st) s data) as [[? ?]| | |]; discriminate.
+  - destruct (nth_error (st_scs st) k); [|discriminate]. destruct (alloc_str c (st_a st) s (cstr data)) as [[? ?]| | |]; discriminate.
+  - destruct (nth_error (st_scs st) k); [|discriminate]. destruct (alloc_str c (st_a st) s data) as [[? ?]| | |]; discriminate.
+  - destruct (nth_error (st_scs st) k); [|discriminate]. destruct (cleanup c (st_a st) s tok) as [[[? ?] ?]| | |]; discriminate.
+  - destruct (arena_free c (st_a st)); discriminate.
+Qed.
+
+(* no API-respecting step takes the "len = 0" branch or hands out memory below the frame header:
+   [cut_exposed] never cuts a run inside the guard of the theorems *)
+(* a run whose events do not expose and whose program leaves scopes innermost first is never cut *)
+Lemma cut_obs_id ops : forall nfr obs,
+  has_nonlifo ops = false -> Forall (fun x => exposes c (fst x) = false) obs ->
+  (length obs <= length ops)%nat -> cut_obs c nfr ops obs = (obs, false).
+Proof.
+  induction ops as [|o ops IH]; intros nfr obs Hnl Hex Hlen.
+  - destruct obs; [reflexivity|simpl in Hlen; lia].
+  - destruct obs as [|x rest]; [reflexivity|]. cbn [cut_obs].
+    inversion Hex as [|? ? Hx Hrest]; subst. rewrite Hx.
+    simpl in Hnl. apply orb_false_iff in Hnl. destruct Hnl as [Ho Hnl]. rewrite Ho. cbn [orb andb].
+    rewrite IH; [reflexivity|assumption|assumption|simpl in Hlen; lia].
+Qed.
+
+Theorem api_step_not_exposing st g o st' ev :
+  reach c st g -> api_okb g o = true -> step c st o = Ok (st', ev) -> exposes c ev = false.
+Proof.
+  intros R Hapi Hstep. destruct ev as [|[p|]|toks reset|x]; try reflexivity.
+  - destruct (returned_is_live _ _ _ _ _ R Hapi Hstep) as (b & Hb & <-).
+    assert (R' : reach c st' (gstep c g o (EPtr (Some (b_loc b))))) by (eapply reach_step; eassumption).
+    destruct (live_inside c Hwf _ _ _ R' Hb) as (fr & _ & H & _). unfold b_off in H.
+    simpl. apply N.ltb_ge. assumption.
+  - destruct (leave_event_op _ _ _ _ _ Hstep) as [k ->].
+    assert (k = O). { simpl in Hapi. apply andb_true_iff in Hapi. destruct Hapi as [H _]. apply Nat.eqb_eq in H. assumption. }
+    subst k. destruct (leave_spec c Hwf _ _ _ _ _ R Hapi Hstep) as (-> & _). reflexivity.
 Qed.
 
 End Oracle.
@@ -241,3 +369,45 @@ Proof.
   simpl in *. destruct IH as [IH1 IH2]. split; [f_equal; assumption|assumption].
 Qed.
 
+
+(* ---- the oracle's verdict on the model's own run of the two non-LIFO witnesses ---------------------
+   (the signature the harness reports for arena.c is the verdict the oracle reaches on the model) *)
+Definition model_verdict (c : cfg) (ops : list hop) : option (nat * N) :=
+  match init c with
+  | Some st => let '(tr, last, e) := mtrace c st ghost0 [] ops in spec_check c tr last e
+  | None => None
+  end.
+
+(* input 1 of findings/C19_nonlifo_leave.md: A, B nested, block in B, leave A, enter C, allocate:
+   the oracle reports the hand-out of B's block (operation 7) as R_NONLIFO *)
+Definition nonlifo_overlap_prog : list hop :=
+  [HOp Enter; HOp (Malloc 0 16); HOp Enter; HOp (Malloc 0 16); HFill 1 0 16 66; HOp (LeaveAt 1); HOp Enter;
+   HOp (Malloc 0 32)].
+(* input 2: leave A, then B: the "len = 0" branch (operation 5) is reported as R_NONLIFO *)
+Definition nonlifo_reset_prog : list hop :=
+  [HOp Enter; HOp (Malloc 0 16); HOp Enter; HOp (Malloc 0 16); HOp (LeaveAt 1); HOp (LeaveAt 0); HOp Enter;
+   HOp (Malloc 0 16)].
+
+Definition nonlifo_flagged (c : cfg) : bool :=
+  match model_verdict c nonlifo_overlap_prog, model_verdict c nonlifo_reset_prog with
+  | Some (7%nat, r1), Some (5%nat, r2) => (r1 =? R_NONLIFO) && (r2 =? R_NONLIFO)
+  | _, _ => false
+  end.
+
+Lemma nonlifo_flagged_builds :
+  Forall (fun ps => nonlifo_flagged (cfg_of poison_normal ps) = true /\ nonlifo_flagged (cfg_of poison_asan ps) = true)
+         [4096; 8192; 16384; 65536].
+Proof. repeat constructor; vm_compute; reflexivity. Qed.
+
+(* and the model's answer to the driver stops there: [cut_exposed] says Unmodelled on input 2 *)
+Definition reset_unmodelled (c : cfg) : bool :=
+  match init c with
+  | Some st => match snd (cut_exposed c nonlifo_reset_prog (hrun c st [] nonlifo_reset_prog)) with
+               | Unmodelled => true | _ => false end
+  | None => false
+  end.
+
+Lemma reset_unmodelled_builds :
+  Forall (fun ps => reset_unmodelled (cfg_of poison_normal ps) = true /\ reset_unmodelled (cfg_of poison_asan ps) = true)
+         [4096; 8192; 16384; 65536].
+Proof. repeat constructor; vm_compute; reflexivity. Qed.
